@@ -223,6 +223,23 @@ def rule_snapshot(ctx: Ctx) -> None:
             if ok and not any(_handler_types(h) & BROAD):
                 ok, why = False, "the handler in PipeFunc.__call__ does not catch Exception"
     ctx.add("4-snapshot", call, uc, ok, why, key="capture")
+    # the snapshot is only ever written where a failure is handled (and initialised in constructors)
+    writers = []
+    for fn_ in P.functions.values():
+        for s_ in walk_no_nested(fn_.node):
+            tg = s_.targets if isinstance(s_, ast.Assign) else ([s_.target] if isinstance(s_, (ast.AnnAssign, ast.AugAssign)) else [])
+            if any(isinstance(t, ast.Attribute) and t.attr == "error_snapshot" for t in tg):
+                par_ = _parents(fn_.node)
+                x = s_
+                in_handler = False
+                while id(x) in par_:
+                    x = par_[id(x)]
+                    if isinstance(x, ast.ExceptHandler):
+                        in_handler = True
+                if not in_handler and fn_.name not in ("__init__", "__setstate__", "__post_init__", "copy"):
+                    writers.append((fn_, s_))
+    ctx.add("4-snapshot", writers[0][0] if writers else call, writers[0][1] if writers else call.node, not writers, "error_snapshot is only written by the failure handler (and initialised in constructors)" if not writers else
+            f"`{norm(writers[0][1])[:60]}` overwrites error_snapshot outside a failure handler: with concurrent calls (thread pool) a call that succeeds after the failing one erases the snapshot of the failure", key="snapshot-writers")
     # nothing rebinds args / kwargs between the call and the snapshot
     es = P.cls("pipefunc._pipefunc.ErrorSnapshot")
     rep = es.methods["reproduce"]
@@ -266,6 +283,7 @@ def check(ctx: Ctx) -> None:
 
 R, B, U, PF = "pipefunc/map/_run.py", "pipefunc/_pipeline/_base.py", "pipefunc/_utils.py", "pipefunc/_pipefunc.py"
 MUTANTS = [
+    Mutant("success-clears-snapshot", PF, "            try:\n                result = self.func(*args, **kwargs)\n", "            self.error_snapshot = None\n            try:\n                result = self.func(*args, **kwargs)\n", ("C13.4-snapshot",), why="round-2 seed C13/5"),
     Mutant("map-call-bare", R, "    def compute_fn() -> Any:\n        try:\n            return func(**selected)\n        except Exception as e:\n            handle_error(e, func, selected)\n            # handle_error raises but mypy doesn't know that\n            raise  # pragma: no cover\n",
            "    def compute_fn() -> Any:\n        return func(**selected)\n", ("C13.1-wrapped",)),
     Mutant("single-wrong-kwargs", R, "            handle_error(e, func, kwargs)\n", "            handle_error(e, func, {})\n", ("C13.1-wrapped",)),
